@@ -20,6 +20,7 @@ RULE = ("histories of 4..14 events over {contact reinstalls with a fresh identit
         "stream 'author': every chat shape x participant x envelope kind: the real getAuthor against the model's author. distinct = distinct history.")
 RULE += (" Histories with 'fault' events: the n-th statement of the observer's store fails once (database is locked) when keys / messages arrive; after a fault only the safety clauses are checked.")
 RULE += (" Histories with 'revert' events: the contact returns to an earlier install (the identity it had before).")
+RULE += (" Event 'notifyFlip': the application switches automatic trust over while the observer's key request is in flight (the server's answer is held back meanwhile): the setting in force when the new identity is looked at decides.")
 ASSUMPTIONS = ["python-axolotl's SessionBuilder refuses an identity the store does not trust and saves the identity it accepts (exercised, not modelled)",
                "an install that was replaced never comes back (restoring an old identity would revive archived ratchet states, which the property does not speak about)"]
 
@@ -131,6 +132,10 @@ def cases(chk):
     # the remembered key must survive a restart that comes right after it was learnt (no other store write in between)
     corpus += [
         {"auto": False, "contacts": 1, "events": [["notify", 0], ["restart"], ["reinstall", 0], ["send", 0]]},
+        # the setting switched while the key request is in flight (on -> off: the new identity is refused; off -> on: it is accepted)
+        {"auto": True, "contacts": 1, "events": [["send", 0], ["reinstall", 0], ["notifyFlip", 0], ["send", 0], ["recv", 0]]},
+        {"auto": False, "contacts": 1, "events": [["send", 0], ["reinstall", 0], ["notifyFlip", 0], ["send", 0], ["recv", 0]]},
+        {"auto": True, "contacts": 2, "events": [["recv", 0], ["send", 1], ["reinstall", 1], ["notifyFlip", 1], ["send", 1], ["reinstall", 0], ["notifyFlip", 0], ["send", 0]]},
         {"auto": False, "contacts": 1, "events": [["notify", 0], ["restart"], ["reinstall", 0], ["notify", 0], ["recv", 0]]},
         {"auto": False, "contacts": 2, "events": [["send", 0], ["notify", 1], ["restart"], ["reinstall", 1], ["send", 1], ["recv", 1]]},
     ]
@@ -200,6 +205,20 @@ def cases(chk):
             else:
                 evs.append([k])
         yield "history", {"auto": r.random() < 0.5, "contacts": nc, "events": evs, "flavour": r.choice([0, 0, 1, 2, 3])}
+    # histories in which the setting is also switched while a key request is in flight (a generator of their own: the streams above stay as they were)
+    r2 = random.Random(chk.seed * 7919 + 17)
+    for _ in range(chk.scale(12, 400)):
+        nc = r2.choice([1, 1, 2])
+        evs = []
+        for _i in range(r2.randint(4, 10)):
+            k = r2.choice(["send", "recv", "reinstall", "reinstall", "notifyFlip", "notifyFlip", "notify", "restart", "auto"])
+            if k in ("send", "recv", "reinstall", "notify", "notifyFlip"):
+                evs.append([k, r2.randrange(nc)])
+            elif k == "auto":
+                evs.append([k, r2.randrange(2)])
+            else:
+                evs.append([k])
+        yield "history", {"auto": r2.random() < 0.5, "contacts": nc, "events": evs, "flavour": r2.choice([0, 0, 1, 2, 3])}
 
 
 def nontrivial(stream, case):
@@ -399,6 +418,31 @@ def run_case(chk, stream, case):
                 w.srv.sid += 1
                 w.srv.push(A.jid, sim.N("notification", {"id": "srv-i%d" % w.srv.sid, "from": w.installs[ci][-1].jid, "type": "encrypt", "t": str(w.srv.t)},
                                         [sim.N("identity")]))
+                w.quiesce()
+            elif kind == "notifyFlip":
+                # the application switches the setting while a key request is in flight: the notification makes the observer ask for the contact's
+                # keys; the server's answer is held back, the setting is switched over, then the answer arrives — the decision belongs to the
+                # setting in force when the new identity is looked at
+                ci = ev[1]
+                w.srv.sid += 1
+                w.srv.push(A.jid, sim.N("notification", {"id": "srv-i%d" % w.srv.sid, "from": w.installs[ci][-1].jid, "type": "encrypt", "t": str(w.srv.t)},
+                                        [sim.N("identity")]))
+                held = False
+                for _step in range(60):
+                    q = w.srv.outbound[A.jid]
+                    if q and q[0][0].tag == "iq" and q[0][0]["type"] == "result" and q[0][0].getChild("list") is not None:
+                        held = True
+                        break
+                    acts = w.srv.enabled()
+                    if not acts:
+                        break
+                    w.srv.fire(acts[0])
+                if held:
+                    chk.hit("ev:flip-in-flight")
+                    auto = not auto
+                    A.set_autotrust(flavour(case, auto))
+                    if not diverged:
+                        d.ask("trust ev setAuto %d" % (1 if auto else 0))
                 w.quiesce()
             elif kind == "restart":
                 A.restart()
